@@ -163,8 +163,8 @@ def run(ck):
         x = next(i for i, e in enumerate(execs) if any('"Crashed"' in y or '"HarnessTimeout"' in y for y in e))
         ck.violation("object pool execution crashed or hung", ck.save_replay("crash", {"trace.ndjson": "\n".join(execs[x]) + "\n", "case.txt": (lines[x] if x < len(lines) else "dfs") + "\n"}))
         return
-    drift = sum(1 for i, e in enumerate(execs) if i < len(kinds) and kinds[i].startswith(("replay", "probe")) and '"drift":true' in e[-1])
-    nrep = sum(1 for k in kinds if k.startswith(("replay", "probe")))
+    drift = sum(1 for i, e in enumerate(execs) if i < len(kinds) and kinds[i] == "replay" and '"drift":true' in e[-1])
+    nrep = sum(1 for k in kinds if k == "replay")   # (probes of deviating designs may be infeasible on the real code)
     ck.note("replayed %d TLC behaviours at critical-section grain, %d drifted" % (nrep, drift))
 
     def concurrent(e):
